@@ -11,7 +11,7 @@ class LoopSpec:
     index: str = '_i'                              # ghost index for loops over sequences
     done: str = '_done'                            # ghost processed-subset for loops over sets/dicts
     decreases: str | None = None                   # while loops: integer measure
-    yields: str | None = None                      # unused
+    assume: dict = field(default_factory=dict)     # axiom instances assumed at the loop head (name -> expr text)
 
 
 @dataclass
